@@ -7,9 +7,10 @@ GO=/root/go/pkg/mod/golang.org/toolchain@v0.0.1-go1.25.0.linux-amd64/bin/go
 [ -x "$GO" ] || GO=/opt/veriftools/go1.26.8/bin/go
 export GOTOOLCHAIN=local GOFLAGS=-mod=mod GOPROXY=off GOSUMDB=off
 export PATH="$(dirname "$GO"):$PATH"
-mkdir -p /verif/bin /verif/build /verif/evidence /verif/replays
-cd /verif/sim/tools
-"$GO" build -o /verif/bin/vcheck ./cmd/vcheck
-"$GO" build -o /verif/bin/instrument ./cmd/instrument
-cd /verif
+V="${VCHECK_DIR:-/verif}"
+mkdir -p "$V/bin" "$V/build" "$V/evidence" "$V/replays"
+cd "$V/sim/tools"
+"$GO" build -o "$V/bin/vcheck" ./cmd/vcheck
+"$GO" build -o "$V/bin/instrument" ./cmd/instrument
+cd "$V"
 ./bin/vcheck build
